@@ -793,4 +793,39 @@ def wid10(ctx, c):
         if i.site.endswith(".high_byte") or i.site.endswith(".low_byte"):
             c.insts.append(i)
 
-RULES = {"WID-10": wid10, "WID-9": wid9, "WID-8": wid8, "WID-6": wid6, "WID-1": wid1, "WID-3": wid3, "WID-5": wid5, "LAY-5": lay5}
+def wid10_constructed(ctx, c):
+    """high_byte() / low_byte() of a NumericValue as its constructor leaves it (the way the image writers meet addresses and lengths):
+    constructor folded for the value, then the two accessors folded on the resulting state"""
+    from ..consteval import Raised
+    repo = ctx.repo
+    init = repo.method(NV, "__init__", inherited=False)
+    where = repo.loc(init, init.node)
+    bad, und = None, None
+    n = 0
+    for v in (0, 1, 255, 256, 257, 0x0E00, 0x1234, 0x7FFF, 0x8000, 0xFF00, 0xFFFF):
+        for spell in (v, "$%X" % v, "%d" % v):
+            try:
+                st = fold_constructor(ctx, NV, {"value": spell})
+                selfenv = {k: x for k, x in st.items() if k.startswith("self.")}
+                hi = fold_method(ctx, NV, "high_byte", selfenv)
+                lo = fold_method(ctx, NV, "low_byte", selfenv)
+            except Raised as e:
+                bad = bad or (spell, "rejected (%s)" % e.name, None)
+                continue
+            except (NotConst, Exception) as e:
+                und = und or "%s for %r" % (str(e)[:60], spell)
+                continue
+            n += 1
+            if (hi, lo) != (v >> 8, v & 0xFF):
+                bad = bad or (spell, hi, lo)
+    if und:
+        c.undecided("NumericValue:bytes-as-constructed", "not-foldable", und, where)
+    elif bad:
+        c.finding("NumericValue:bytes-as-constructed", "NumericValue(%r) gives high byte %s, low byte %s" % bad,
+                  "NumericValue(%r), as the constructor leaves it, answers high_byte() = %s and low_byte() = %s: the image writers store addresses and lengths through these two calls, "
+                  "so the header of the saved file carries another address" % bad, where)
+    else:
+        c.ok("NumericValue:bytes-as-constructed", "high/low byte of %d constructed values" % n, where)
+
+
+RULES = {"WID-10": (lambda ctx, c: (wid10(ctx, c), wid10_constructed(ctx, c))), "WID-9": wid9, "WID-8": wid8, "WID-6": wid6, "WID-1": wid1, "WID-3": wid3, "WID-5": wid5, "LAY-5": lay5}
